@@ -369,7 +369,7 @@ package css
 //@   loop 1 transition[F,C08] @comment-sticky: prev(p.prevComment) ==> p.prevComment
 
 //@ func Parser.pushBuf
-//@   ensures[F] len(p.buf) == old(len(p.buf)) + 1 && (old(len(p.buf)) >= 1 ==> sameSlice(p.buf[0].Data, old(p.buf[0].Data))) && sameSlice(p.buf[len(p.buf)-1].Data, data)
+//@   ensures[S] len(p.buf) == old(len(p.buf)) + 1 && (old(len(p.buf)) >= 1 ==> sameSlice(p.buf[0].Data, old(p.buf[0].Data))) && sameSlice(p.buf[len(p.buf)-1].Data, data)
 
 //@ func Parser.parseStylesheet
 //@   preserves[S] cpInv(p) && p.l.r.pos >= old(p.l.r.pos)
